@@ -564,12 +564,17 @@ class Machine:
         converter = self._convert_units_fn(from_mode, to_mode)
         self._reg.store_color(converter(original_color))
 
+        # After "time at", the time register holds a time pattern, which has
+        # no units.
+        numeric_time = not isinstance(self._reg.time, TimePattern)
         if to_mode is UnitMode.RAW:
             self._reg.duration = units.time_raw(self._reg.duration)
-            self._reg.time = units.time_raw(self._reg.time)
+            if numeric_time:
+                self._reg.time = units.time_raw(self._reg.time)
         elif from_mode is UnitMode.RAW:
             self._reg.duration = units.time_logical(self._reg.duration)
-            self._reg.time = units.time_logical(self._reg.time)
+            if numeric_time:
+                self._reg.time = units.time_logical(self._reg.time)
 
     @staticmethod
     def _convert_units_fn(from_mode, to_mode):
